@@ -26,6 +26,7 @@ RULE = ("(alloc) allocate_code(n), n in 1..8, through real clients against the r
         "allocate_code could have produced. (onlyone) all ordered pairs of allocate/set/input => the second "
         "raises OnlyOneCodeError. Non-trivial = malformed code, or a prefix with >=1 completed word and a "
         "non-empty partial word, or n>=3. Distinct = (features, canonical case).")
+RULE += (' Added later (complete part): 0-2 earlier TABs in the same input session with a different (mistyped, then corrected) earlier word and the same partial last word.')
 ASSUMPTIONS = ["uniformity is decided for the byte->word map and the entropy-consumption pattern; os.urandom is trusted",
                "nameplates made of non-ASCII Unicode digits are generated and tallied but not asserted either way"]
 
